@@ -38,8 +38,10 @@ ASSUMPTIONS = [
     "values are compared with == (no arithmetic happens), the Woehler results with rtol 1e-12 (vector vs scalar pow)",
 ]
 
-KEYS_Q = {"a": (10, 20), "b": ("x", "y"), "c": (1.5, 2.5), "n": (0, 1), "s": ("p", "q"), "z": (10, 20), "e": ("x", "y"), "m": ("x", None)}
-KEYS_T = {"a": (10, 20, 30), "b": ("x", "y"), "c": (1.5, 2.5), "n": (0, 1), "s": ("p", "q"), "z": (10, 20), "e": ("x", "y"), "m": ("x", None)}
+# "f": the level name 'a' again, but with FLOAT keys of which one equals an integer key of "a" (10.0 == 10) and one is not
+# integer-valued (12.5): ids / temperatures stored as int in one operand and as float in the other
+KEYS_Q = {"f": (10.0, 12.5), "a": (10, 20), "b": ("x", "y"), "c": (1.5, 2.5), "n": (0, 1), "s": ("p", "q"), "z": (10, 20), "e": ("x", "y"), "m": ("x", None)}
+KEYS_T = {"f": (10.0, 12.5), "a": (10, 20, 30), "b": ("x", "y"), "c": (1.5, 2.5), "n": (0, 1), "s": ("p", "q"), "z": (10, 20), "e": ("x", "y"), "m": ("x", None)}
 # "m": a level of a MultiIndex in which one key is missing (None / NaN: an element without a variant label); pandas keeps
 # such a key as code -1 outside .levels.  It is a key like any other: rows carrying it keep it and keep their values.
 NAN_KEY = "<missing key>"
@@ -47,8 +49,8 @@ NAN_KEY = "<missing key>"
 # like an unnamed one.  ("z": integer names are NOT enumerated: pandas itself reads an integer `level=` as a level number,
 # so name 1 raises IndexError and name 0 gives NaN in the cross join on the unchanged tree - a pandas ambiguity, observed,
 # outside the claims.)
-NAME = {"a": "a", "b": "b", "c": "c", "n": None, "s": None, "z": 0, "e": "", "m": "m"}
-LAYOUTS = (("a",), ("b",), ("c",), ("n",), ("s",), ("a", "b"), ("b", "a"), ("a", "c"), ("a", "n"), ("e",), ("e", "a"), ("a", "m"))
+NAME = {"f": "a", "a": "a", "b": "b", "c": "c", "n": None, "s": None, "z": 0, "e": "", "m": "m"}
+LAYOUTS = (("a",), ("b",), ("c",), ("n",), ("s",), ("a", "b"), ("b", "a"), ("a", "c"), ("a", "n"), ("e",), ("e", "a"), ("a", "m"), ("f",))
 
 
 def bounds(tier):
